@@ -84,6 +84,10 @@ def handle (op : String) (args : List String) : Option String :=
     pure (clStr (clientCheck (fun _ => accept) (← parseBytes key) (← status.toNat?) (← parseHeader hdr)))
   | "hs.accept", [key] => do pure (toHex (Oryx.Spec.Sha1.acceptKey (← parseBytes key)))
   | "hs.sha1", [m] => do pure (toHex (Oryx.Spec.Sha1.sha1 (← parseBytes m)))
+  | "hs.url", [u] => do
+    match parseURL (← parseBytes u) with
+    | none => pure "err"
+    | some w => pure s!"ok {toHex w.scheme} {toHex w.host} {toHex (requestURI w)} {toHex (hostPortNoPort w).1} {toHex (hostPortNoPort w).2}"
   | "hs.transport", [hdr] => do pure (headerStr (transport (← parseHeader hdr)))
   | _, _ => none
 
